@@ -45,6 +45,7 @@ def main(argv=None):
     if len(argv) >= 4 and argv[2] == "--replay":
         return do_replay(pid, mod, argv[3])
     seed = int(os.environ.get("VERIF_SEED", "0") or 0)
+    os.environ["VERIF_TIER_RUNNING"] = tier
     t0 = time.time()
     print("[%s] tier=%s seed=%d tree=%s" % (pid, tier, seed, env.REPO), flush=True)
     try:
